@@ -47,11 +47,12 @@ TWrite ==
   /\ E.ev = "write"
   /\ LET w == W(E) IN
      IF ~Pre THEN Harness("harness-tree-changed-between-calls")
-     ELSE IF WriteOK(w)
-     \* C12 quantifies over ascending write sequences; C20 over all interleavings of write calls (scenario flag anyorder)
+     ELSE IF WriteOK(w) \/ (Has(Hdr, "anyorder") /\ Hdr.anyorder /\ WriteOKAny(w))
+     \* C12 quantifies over ascending write sequences; C20 over all interleavings of write calls (scenario flag anyorder:
+     \* a call may start below what is stored and name its indices in any order)
      THEN IF ~(Has(Hdr, "anyorder") /\ Hdr.anyorder) /\ ~AscendingHistory(w) THEN Harness("harness-write-not-ascending")
           ELSE IF E.resp # "ok" THEN RejU({"C12-valid-write-refused"}) /\ UNCHANGED vars
-          ELSE WriteBatch(w, E.h1) /\ AfterWrite
+          ELSE WriteBatchAny(w, E.h1) /\ AfterWrite
      ELSE IF HasDup(w)
      THEN IF E.resp = "ok" THEN RejU({"C12-duplicate-index-accepted"}) /\ UNCHANGED vars
           ELSE IF ~(SeqSet(E.stored) \subseteq NewIn(w))
@@ -101,7 +102,10 @@ TRead ==
                     <<"C12-reader-raised", E.raised>>,
                     <<"C12-read-samples", ~E.raised /\ q.method = "none" /\ Keys(obs) # Keys(exp)>>,
                     <<"C12-ffill-samples", ~E.raised /\ q.method = "ffill" /\ Keys(obs) # Keys(exp)>>,
-                    <<"C12-read-values", ~E.raised /\ Keys(obs) = Keys(exp) /\ obs # exp>>}))
+                    <<"C12-read-values", ~E.raised /\ Keys(obs) = Keys(exp) /\ obs # exp>>,
+                    \* a point read of a stored sample that comes back empty: the reader did not look where the writer put it
+                    <<"C13-reader-did-not-look-in-the-file-of-the-sample",
+                      ~E.raised /\ ~viaRf /\ q.method = "none" /\ q.a = q.b /\ q.a \in Dom /\ Keys(obs) = <<>> >>}))
 
 TBounds ==
   /\ E.ev = "bounds"
